@@ -6,3 +6,4 @@ import Proofs.Names
 import Proofs.ProbReal
 import Proofs.RenderReal
 import Proofs.RenderLinear
+import Proofs.RenderDC
